@@ -250,6 +250,8 @@ class SymEx:
             return ('un', rv['op'], a)
         if k == 'discr':
             v = self.read_place(path, rv['place'])
+            if v[0] == 'agg' and v[1] in ('std::option::Option', 'std::result::Result'):
+                return ('const', {'None': 0, 'Some': 1, 'Ok': 0, 'Err': 1}[v[2]], 'isize')
             if v[0] == 'agg' and self.F and v[1] in self.F.adts:
                 a = self.F.adts[v[1]]
                 for i, var in enumerate(a['variants']):
@@ -349,8 +351,8 @@ class SymEx:
                     args = [self.operand(path, a) for a in t['args']]
                     if c is None:
                         args = [self.operand(path, t['func'])] + args
-                    val = None
-                    if self.call_model:
+                    val = array_iter_model(nm, args, bi, path)
+                    if val is None and self.call_model:
                         val = self.call_model(nm, args, t, path)
                     if val is None:
                         val = default_call_model(nm, args, (bi, path.visits.get(bi, 1)) if path.visits.get(bi, 1) > 1 else bi, c)
@@ -445,6 +447,31 @@ class SymEx:
         if v[0] == 'agg':
             return v[1]
         return None
+
+
+def array_iter_model(nm, args, bi, path):
+    """`for x in [c0, c1, ..]`: the by-value iterator of an array built in this body yields exactly its elements - the k-th
+    `next()` on it is Some(element k), the one after the last is None (the loop is bounded by the array, like the counter of
+    a hand-written loop)."""
+    if re.search(r'IntoIterator for \[T; N\]>::into_iter$', nm) and args and args[0][0] == 'array':
+        return ('arrayiter', args[0][1], bi)
+    if re.search(r'^<std::array::IntoIter<T, N> as std::iter::Iterator>::next$', nm) and args:
+        it = args[0]
+        while it[0] in ('ref', 'deref'):
+            it = it[1]
+        if it[0] == 'arrayiter':
+            k = 0
+            for nm2, a2, b2 in path.calls:
+                if nm2 == nm and a2:
+                    it2 = a2[0]
+                    while it2[0] in ('ref', 'deref'):
+                        it2 = it2[1]
+                    if it2 == it:
+                        k += 1
+            if k < len(it[1]):
+                return ('agg', 'std::option::Option', 'Some', {'0': it[1][k]})
+            return ('agg', 'std::option::Option', 'None', {})
+    return None
 
 
 def default_call_model(nm, args, bi, c):
